@@ -150,10 +150,10 @@ def run(ctx):
         s, n = drive_and_judge(ctx, binp, sub, name="allvar", variants="all")
         total, nlines = add(total, s), nlines + n
     # byte sweeps: every (quick: every 9th) byte position of the image stream and of the cache file, for one image per layout
-    layouts = ["annotated", "plain", "multi", "multiplain"]
+    layouts = ["annotated", "plain", "multi", "multiplain", "decoy", "decoyplain"]
     sweep_scs = []
     for i, sc in enumerate([s for s in scs if s["id"].startswith(PID + "-f-")][:4 if quick else 16]):
-        sweep_scs.append(dict(sc, vlayout=layouts[i % 4], vbuild="built" if (i // 4) % 2 == 0 else "raw"))
+        sweep_scs.append(dict(sc, vlayout=layouts[i % len(layouts)], vbuild="built" if (i // len(layouts)) % 2 == 0 else "raw"))
     s, n = drive_and_judge(ctx, binp, sweep_scs, name="sweep", sweep=1, sweepstep=9 if quick else 1, sweeponly=True, shards=4 if quick else 8)
     total, nlines = add(total, s), nlines + n
     ctx.cov.update(dict(
@@ -166,7 +166,7 @@ def run(ctx):
         monitor_formulas=MON_FORMULAS, exhaustive=(distinct == len(scs)),
         checker_cmd="tlc MCPkgRevision (M,G) -> harness/drivers/pkgrevision on /repo (T) -> tlc MonPkgRevision",
         rule="one scenario per model transition that ends a reconcile (shortest history reaching it, one per fault plan); "
-             "image layout (annotated / plain / multi / multiplain) and xpkg-build vs hand-assembled stream rotate per scenario; "
+             "image layout (annotated / plain / multi / multiplain / decoy: another file with the base name package.yaml in front of the stream / decoyplain: ... in an upper layer) and xpkg-build vs hand-assembled stream rotate per scenario; "
              "sweep = the first reconcile fails at byte b of the image stream / of the cache file (error, error + failing delete, "
              "crash), two healthy reconciles follow; concurrent = a second reconcile of the revision starts mid-stream",
     ))
